@@ -219,6 +219,11 @@ def run(idx: ProgramIndex, rep: Report, tier: str):
                 forms_seen.add("int")
                 if not (n_last == 1 and "rest*" in flat):
                     probs.append("int index: the diagonal is not indexed with (*rest, last)")
+                # Diag(diagonal[..., i]) is the marginal only for a single integer: an index tensor / list may repeat an entry, and the
+                # covariance of a variable with itself is its variance, not 0
+                int_path = any(getattr(s_, "kind", "") == "assume" and s_.truth and "isinstance" in src(s_.node) and "int" in src(s_.node) and "slice" not in src(s_.node) for s_, _e in seq)
+                if not int_path:
+                    probs.append("a branch that was not tested to have an integer event index builds the covariance as a diagonal of selected variances: for an index tensor with a repeated entry the copies of one variable come out independent")
             elif n_last != 2 or "rest*" not in flat:
                 probs.append("a branch indexes the covariance with %s: the event index does not reach both axes" % flat)
             else:
